@@ -3,11 +3,22 @@ package kernel
 import (
 	"fmt"
 	"hash/fnv"
+	"os"
 	"sort"
 	"sync"
 	"sync/atomic"
 	"testing/synctest"
 )
+
+// stepLog, when VERIF_STEP_LOG names a file, receives one line per scheduler
+// step (debugging aid for the determinism self-test).
+var stepLog = func() *os.File {
+	if path := os.Getenv("VERIF_STEP_LOG"); path != "" {
+		f, _ := os.OpenFile(path, os.O_CREATE|os.O_WRONLY|os.O_APPEND, 0o644)
+		return f
+	}
+	return nil
+}()
 
 // Progress is bumped at every scheduler step and every case; the real-time
 // watchdog (watchdog.go) exits 2 when it stops moving.
@@ -48,6 +59,7 @@ type Sched struct {
 	MaxParked   int
 	MaxSteps    int
 	Aborted     bool
+	active      bool           // between the first Go and the return of Run
 	OnStep      func(step int) // invariant hook, called with nothing running
 }
 
@@ -86,6 +98,7 @@ func (s *Sched) PolicyName() string {
 // Go starts a task goroutine that the scheduler waits for.
 func (s *Sched) Go(f func()) {
 	s.mu.Lock()
+	s.active = true
 	s.alive++
 	s.mu.Unlock()
 	go func() {
@@ -110,7 +123,10 @@ func (s *Sched) poke() {
 // The caller must not hold any sync.Mutex another goroutine may want.
 func (s *Sched) Yield(task, site string, key uint64) {
 	s.mu.Lock()
-	if s.Aborted {
+	if s.Aborted || !s.active {
+		// No task has been started yet, or Run has returned: the caller is
+		// the bubble's root (set-up, final observation); nobody would
+		// release it.
 		s.mu.Unlock()
 		return
 	}
@@ -135,6 +151,7 @@ func (s *Sched) Run() {
 		synctest.Wait()
 		s.mu.Lock()
 		if s.alive == 0 && len(s.parked) == 0 {
+			s.active = false
 			s.mu.Unlock()
 			return
 		}
@@ -200,6 +217,13 @@ func (s *Sched) note(p *parked) {
 	h := fnv.New64a()
 	fmt.Fprintf(h, "%d|%s|%s|%d", s.hash, p.task, p.site, p.key)
 	s.hash = h.Sum64()
+	if stepLog != nil {
+		var rest []string
+		for _, q := range s.parked {
+			rest = append(rest, q.task)
+		}
+		fmt.Fprintf(stepLog, "%d %s %s %d parked=%v\n", s.step, p.task, p.site, p.key, rest)
+	}
 	if len(s.trace) < s.keep {
 		s.trace = append(s.trace, fmt.Sprintf("%d %s %s %d", s.step, p.task, p.site, p.key))
 	}
